@@ -321,3 +321,36 @@ def gen_migrate(rng, big=False, self_suspend=False):
             s.units[t][3] = ["M%d:%d" % (t, dst), "S", "W"]
             s.main += ["C%d" % t, "R%d" % t, "F%d" % t]
     return s.text()
+
+
+def gen_xjoin(rng, big=False):
+    """C06 family: ABT_xstream_join is requested while units of that stream's pool are blocked (suspended / joining /
+    waiting to be resumed by another stream) and are resumed only afterwards; the join must return only when they are done"""
+    nes, pools, es = topology(rng, max_es=3)
+    while nes < 1:
+        nes, pools, es = topology(rng, max_es=3)
+    s = Scn(rng, nes, pools)
+    for e, sch, mine in es:
+        s.es(e, sch, mine)
+    tgt_es, _, tgt_pools = rng.choice(es)
+    p = tgt_pools[0]
+    units = []
+    for _ in range(rng.randint(1, 4 if big else 3)):
+        k = rng.randint(1, 2)
+        ops = ["W"]
+        for _ in range(k):
+            ops += ["S", rng.choice(["W", "Y"])]
+        u = s.unit("U", "N", p, ops)
+        units.append((u, k))
+        s.main.append("C%d" % u)
+    # wait until they are all blocked, then ask for the join from an external thread, then resume them
+    s.main += ["B%d" % u for u, _ in units]
+    s.ext.append(["j%d" % tgt_es])
+    s.main += ["W"] * rng.randint(0, 3) + ["Y"] * rng.randint(0, 3)
+    order = []
+    for u, k in units:
+        order += [u] * k
+    rng.shuffle(order)
+    s.main += ["R%d" % u for u in order]
+    s.main += ["F%d" % u for u, _ in units]
+    return s.text()
